@@ -184,6 +184,11 @@ struct NonConstArrayLengthError : public Error {
     Error(location, (boost::format("array %s length is not constant") % name).str()) {}
 };
 
+struct RedeclaredSymbolError : public Error {
+  RedeclaredSymbolError(Location location, std::string name) :
+    Error(location, (boost::format("symbol %s is already declared in this scope") % name).str()) {}
+};
+
 struct NonConstValError : public Error {
   NonConstValError(Location location, std::string name) :
     Error(location, (boost::format("val %s is not a constant defined before its use") % name).str()) {}
@@ -1755,6 +1760,9 @@ class SymbolTable {
 public:
   void insert(SymbolIDRef identifier, std::unique_ptr<Symbol> symbol) {
     //std::cout << "insert " << identifier.first << ", " << identifier.second <<"\n";
+    if (symbolMap.count(identifier) != 0) {
+      throw RedeclaredSymbolError(symbol->getNode()->getLocation(), identifier.second);
+    }
     symbolMap[identifier] = std::move(symbol);
   }
 
